@@ -20,7 +20,14 @@ class AsyncioSingleTask:
                 except asyncio.CancelledError:
                     pass
 
-            self._handle = task_group._task_group.create_task(action())  # type: ignore
+            coro = action()
+            try:
+                self._handle = task_group._task_group.create_task(coro)  # type: ignore
+            except RuntimeError:
+                # The task group is shutting down (the connection is
+                # being cancelled), nothing is left to time out.
+                coro.close()
+                self._handle = None
 
     async def stop(self) -> None:
         async with self._lock:
